@@ -2,3 +2,5 @@ import TephraProps.C07
 #print axioms Tephra.Props.C07_hi_zero
 #print axioms Tephra.Props.C07_stops_at_hi
 #print axioms Tephra.Props.C07_model_hi_zero
+#print axioms Tephra.Props.C07_partial
+#print axioms Tephra.Props.C07_extends_C06
